@@ -510,7 +510,9 @@ def r8_4(ctx):
     `unwrap` discharged by the loop's exit condition."""
     from wa.cond import bool_facts
     f = ctx.facts
-    fns = [FIND, "utils::out_of_time", "time_control::GameTime::calculate_time_slice"]
+    # the clock predicate is examined where it lives: as a function of its own, or (a method of a
+    # clock object that is out of the reference vocabulary) inlined into find_and_play_best_move
+    fns = [FIND] + [x for x in ("utils::out_of_time", "time_control::GameTime::calculate_time_slice") if f.has_body(x)]
     # plus any crate-local helper FIND calls directly that is not the search, the parser or the printers
     b0 = f.body(FIND)
     skip = {"uci::parse_go_command", "uci::send_best_move_to_gui", "uci::send_to_gui", "engine::get_best_move", "board::BoardState::simple_board"}
@@ -586,12 +588,15 @@ def r9_7(ctx):
             if e[0] == "agg" and e[2] == "Some" and call in set(subexprs(e)):
                 best.add(st["place"]["local"])
     # edges that say "the clock has expired"
+    # (the deadline test may be the call of out_of_time, its negation, a named boolean built from it,
+    # or the comparison `elapsed_ms(start) >= slice` it stands for: rules/search.py::clock_test)
+    from wa.implied import implying_edges
+    from .search import clock_test
     ot_true = set()
-    for s in loop:
-        if b.term(s)["k"] == "switch":
-            d = ex.switch_discr(s)
-            if d[0] == "call" and d[1] == "utils::out_of_time":
-                ot_true.add((s, b.term(s)["otherwise"]))
+    for s, tg, (e, truth), fresh, lastdefs in implying_edges(b, ex, lambda e, t: clock_test(e, t) is not None):
+        ct = clock_test(e, truth)
+        if s in loop and ct[0] is True:
+            ot_true.add((s, tg))
     # edges inconsistent with "a move is in hand" (best is Some)
     refuted = set()
     for s in loop:
